@@ -15,13 +15,15 @@ def h_async(a, inst):
     return equal_snap(real, ref)
 
 
+EXTRA_MODULES = ["harness.C23gt"]  # threads: a subscriber racing the producer (gate threads)
 ENCODED = ["reactivex/subject/asyncsubject.py", "reactivex/subject/subject.py", "reactivex/subject/innersubscription.py",
            "reactivex/observer/autodetachobserver.py", "reactivex/observable/observable.py"]
-BOUNDS = {"quick": "every call history of length 5 over the 12-op alphabet of C20",
+BOUNDS = {"quick": "every call history of length 5 over the 12-op alphabet of C20; threads (GT): a subscriber thread (subscribe, or subscribe and unsubscribe at once) racing a producer thread over 4 sequences, 2 ordered preemptions at instruction-level yield points of the subject modules",
           "thorough": "length 6"}
-ASSUMES = ["reference subject as in C20 plus: on_next only stores; completion delivers the last value (if any) then on_completed to each current subscriber and to each later one; error delivers only the error",
+ASSUMES = ["threads: gate-aware RLock shims; the late subscriber must receive one of the sequential outcomes (a prefix of one when it unsubscribes), the early subscriber everything, nothing may raise", "reference subject as in C20 plus: on_next only stores; completion delivers the last value (if any) then on_completed to each current subscriber and to each later one; error delivers only the error",
            "an in-callback unsubscribe-self issued while the subscription is still being established is a no-op (no handle yet)"]
 MANIFEST = {
+    "engine": "XH+GT",
     "text": "Bounded symbolic model checking over call histories (as C20) on the real AsyncSubject against a reference model; "
             "nothing before termination, last value then completion, error only.",
     "note": "History length 5 / 6; 3 observers.",
